@@ -83,7 +83,50 @@ def node_term(row, i):
     return ("iri", "%sn/%s_%d" % (EX, row.rid, i))
 
 
-def generate_triples(rows, values, representative=False):
+def label_iri(name):
+    return "<%s%s>" % (SHAPES_NS, name)
+
+
+def node_order(rows, values, representative=False):
+    """[(node term, row)] in document order (the order of generate_triples)."""
+    byid = row_by_id(rows)
+    owned = owner_of(rows)
+    out = []
+
+    def emit(row, i):
+        out.append((node_term(row, i), row))
+        for p, tgt in row.out:
+            if tgt[0] == "own":
+                emit(byid[tgt[1]], i)
+
+    for row in rows:
+        if row.rid in owned:
+            continue
+        kind, v = mult_var(rows, row.rid)
+        n = v if kind == "const" else (1 if representative else values[v])
+        for i in range(n):
+            emit(row, i)
+    return out
+
+
+def shapemap_instances(rows, values, representative=False):
+    """node -> [shape labels] as ShapeMapInstanceTracker builds it from one '<node>@<label>' item per (node, label)."""
+    inst = OrderedDict()
+    for term, row in node_order(rows, values, representative):
+        if row.classes:
+            inst[term[1]] = [label_iri(c) for c in row.classes]
+    return inst
+
+
+def shapemap_text(rows, values, representative=False):
+    lines = []
+    for term, row in node_order(rows, values, representative):
+        for c in row.classes:
+            lines.append("<%s>@%s" % (term[1], label_iri(c)))
+    return "\n".join(lines)
+
+
+def generate_triples(rows, values, representative=False, shapemap=False):
     """Ordered list of (s, p, o, weight_key) triples; terms are ('iri', v) | ('bnode', label) | ('lit', datatype, lexical).
     With representative=True every row with a symbolic multiplicity is emitted once (copy 0)."""
     byid = row_by_id(rows)
@@ -93,8 +136,9 @@ def generate_triples(rows, values, representative=False):
 
     def emit(row, i):
         s = node_term(row, i)
-        for c in row.classes:
-            triples.append((s, RDF_TYPE, ("iri", EX + c)))
+        if not shapemap:
+            for c in row.classes:
+                triples.append((s, RDF_TYPE, ("iri", EX + c)))
         owned_later = []
         for j, (p, tgt) in enumerate(row.out):
             kind = tgt[0]
@@ -154,6 +198,8 @@ def to_ntriples(triples):
 
 def shape_name(class_iri, shapes_ns=SHAPES_NS):
     """Reference label: last path/fragment segment of the class IRI in the shapes namespace."""
+    if class_iri.startswith("<") and class_iri.endswith(">"):
+        return "%" + class_iri          # shape-map labels are used as they are
     tail = class_iri.rstrip("/#")
     for sep in ("#", "/"):
         if sep in tail:
@@ -169,13 +215,14 @@ def term_type(t):
     return {"iri": "IRI", "bnode": "BNode"}.get(t[0]) or t[1]
 
 
-def refprof(triples, inverse=False, inst_prop=RDF_TYPE, targets=None, shapes_ns=SHAPES_NS):
+def refprof(triples, inverse=False, inst_prop=RDF_TYPE, targets=None, shapes_ns=SHAPES_NS, instances=None):
     """Reference two-pass profile.
     -> instances: OrderedDict node -> [classes]; feats: node -> (direct, inverse) with direct: OrderedDict prop -> OrderedDict kind -> n."""
-    instances = OrderedDict()
-    for s, p, o in triples:
-        if p == inst_prop and o[0] in ("iri", "bnode") and (targets is None or o[1] in targets):
-            instances.setdefault(term_key(s), []).append(o[1])
+    if instances is None:
+        instances = OrderedDict()
+        for s, p, o in triples:
+            if p == inst_prop and o[0] in ("iri", "bnode") and (targets is None or o[1] in targets):
+                instances.setdefault(term_key(s), []).append(o[1])
     feats = {n: (OrderedDict(), OrderedDict()) for n in instances}
 
     def bump(d, prop, kind):
